@@ -85,7 +85,8 @@ enum Act {
     Vector { st: Vec<St>, approve: bool },
     /// tampered declared set, all signers sign; `over_tampered`: digest built from the tampered
     /// set's hash instead of the true set's
-    Tampered { t: Tamper, over_tampered: bool, approve: bool },
+    /// `st`: per declared entry 0 = unsigned, 1 = signed, 2 = signed with a flipped bit; empty = all signed
+    Tampered { t: Tamper, over_tampered: bool, approve: bool, st: Vec<u8> },
     /// all signers sign batch `signed`; a batch deviating in one respect is submitted
     Batch { kind: u8, dev: BatchDev },
 }
@@ -298,7 +299,18 @@ impl Scenario for C01 {
                     if !ctx.full && !approve {
                         continue;
                     }
-                    v.push(Act::Tampered { t, over_tampered, approve });
+                    v.push(Act::Tampered { t, over_tampered, approve, st: vec![] });
+                    // thorough: the full product with per-entry signature status for small sets
+                    if self.thorough && n <= 2 && approve {
+                        let len = match t { Tamper::DropFirst | Tamper::DropLast => n - 1, Tamper::AddSigner | Tamper::DupFirst => n + 1, _ => n };
+                        for code in 0..3usize.pow(len as u32) {
+                            let mut c = code;
+                            let mut st = vec![];
+                            for _ in 0..len { st.push((c % 3) as u8); c /= 3; }
+                            if st.iter().all(|x| *x == 1) { continue; }
+                            v.push(Act::Tampered { t, over_tampered, approve, st });
+                        }
+                    }
                 }
             }
         }
@@ -401,7 +413,7 @@ impl Scenario for C01 {
                 must_reject = !ctx.retained || !enough;
                 must_accept = ctx.retained && enough && !any_invalid;
             }
-            Act::Tampered { t, over_tampered, approve: ap } => {
+            Act::Tampered { t, over_tampered, approve: ap, st } => {
                 out.kind = "tampered-set";
                 let mut d = raw.clone();
                 match t {
@@ -436,7 +448,17 @@ impl Scenario for C01 {
                 let s: Vec<Option<[u8; 64]>> = d
                     .signers
                     .iter()
-                    .map(|(pk, _)| keys.pk.iter().position(|k| k == pk).map(|ix| sign(keys, ix, &dig)))
+                    .enumerate()
+                    .map(|(i, (pk, _))| {
+                        let mode = st.get(i).cloned().unwrap_or(1);
+                        if mode == 0 {
+                            return None;
+                        }
+                        keys.pk.iter().position(|k| k == pk).map(|ix| {
+                            let sg = sign(keys, ix, &dig);
+                            if mode == 2 { flip(&sg, 40) } else { sg }
+                        })
+                    })
                     .collect();
                 declared = d;
                 sigs = s;
